@@ -170,6 +170,19 @@ class Ctx:
                          p.stderr.decode("utf-8", "replace")[-2000:])
         return out
 
+    def run_impl_par(self, cmd, lines, nproc=14, timeout=3000):
+        """Same as run_impl, the lines dealt round-robin to nproc harness processes."""
+        from concurrent.futures import ThreadPoolExecutor
+        if len(lines) < 2 * nproc:
+            return self.run_impl(cmd, lines, timeout)
+        chunks = [lines[i::nproc] for i in range(nproc)]
+        with ThreadPoolExecutor(nproc) as ex:
+            outs = list(ex.map(lambda c: self.run_impl(cmd, c, timeout), chunks))
+        res = [None] * len(lines)
+        for i, o in enumerate(outs):
+            res[i::nproc] = o
+        return res
+
     def run_model(self, cmd, lines, timeout=1200):
         data = ("\n".join(lines) + "\n").encode()
         p = subprocess.run([MODEL, cmd], input=data, stdout=subprocess.PIPE, stderr=subprocess.PIPE, timeout=timeout)
